@@ -197,6 +197,7 @@ func runC13(c *Check) {
 	ruleTimersRearmed(c, p, "C13-R8")
 	c.Doc("C13-R9", "GA: every unbounded loop (no collection or counter bounds it) in the block package whose body calls another layer (executor, store, DA, sequencer) passes a context check on every cycle: a backlog worked off inside one call must not outlive the stop request.")
 	ruleUnboundedLoopsCheckContext(c, p, "C13-R9")
+	ruleWorkersStartNoStrayGoroutines(c, p, "C13-R10")
 	c.Doc("C13-R7", "EO (pairing): every mutex acquisition in the node's packages and the sequencing layer is released on every path to a return (a leaked lock parks the loops that share it in Lock(), which no stop request can interrupt).")
 	ruleLockPairing(c, "C13-R7", []*Prog{p, c.Mod(ModSingle)})
 }
@@ -908,8 +909,9 @@ func ruleTimersRearmed(c *Check, p *Prog, rule string) {
 		if !hasSel {
 			continue
 		}
-		g := BuildECFG(p, fn, ExpandOpts{MaxDepth: 1, Stop: func(f *ssa.Function) bool {
-			return strings.Contains(fnName(f), "publishBlockInternal") || isSubmitterFn(f)
+		g := BuildECFG(p, fn, ExpandOpts{MaxDepth: 3, Stop: func(f *ssa.Function) bool {
+			pk := fnPkg(f)
+			return strings.Contains(fnName(f), "publishBlockInternal") || isSubmitterFn(f) || pk == nil || pk.Pkg.Path() != fnPkg(fn).Pkg.Path()
 		}})
 		sels := g.Select(func(x *Node) bool {
 			s, ok := x.In.(*ssa.Select)
@@ -1126,4 +1128,39 @@ func ruleUnboundedLoopsCheckContext(c *Check, p *Prog, rule string) {
 		c.Unk(rule, "unbounded-loops", "", "", "anchor lost: no unbounded loop calling another layer found in the block package")
 	}
 	c.MinInstances(rule, 1)
+}
+
+// ruleWorkersStartNoStrayGoroutines (C13-R10): the node joins its activities — it waits for every
+// worker function it started before it closes the store and the services. That only covers what
+// runs on the worker's own goroutine. A plain `go` statement inside the block package (a reaping
+// round run in the background, a submission fired and forgotten) is joined by nobody: shutdown
+// returns while it still runs, and successive rounds overlap (the same transactions are handed to
+// the sequencer twice). Concurrency inside a step goes through a group that is waited for.
+func ruleWorkersStartNoStrayGoroutines(c *Check, p *Prog, rule string) {
+	c.Doc(rule, "CS: no function of the block package starts a goroutine with a plain go statement (concurrency inside a step uses a group that is waited for before the step returns): everything a worker does ends before the worker returns, so the node's join covers it and rounds do not overlap.")
+	var stray []string
+	nFns := 0
+	for _, fn := range p.Funcs {
+		pk := fnPkg(fn)
+		if pk == nil || pk.Pkg.Path() != rootPath+"/block" || fn.Blocks == nil {
+			continue
+		}
+		nFns++
+		for _, b := range fn.Blocks {
+			for _, in := range b.Instrs {
+				if g, ok := in.(*ssa.Go); ok {
+					stray = append(stray, fnShort(fn)+" → "+trunc(commonName(g.Common()), 60)+" @"+p.InstrPos(in))
+				}
+			}
+		}
+	}
+	sort.Strings(stray)
+	if nFns < 50 {
+		c.Unk(rule, "anchor-count", "", "", fmt.Sprintf("anchor lost: only %d functions of the block package seen", nFns))
+	}
+	if len(stray) == 0 {
+		c.OK(rule, "block ⟂ no-stray-goroutines", "", "", fmt.Sprintf("no go statement in %d functions of the block package", nFns), true)
+	} else {
+		c.Bad(rule, "block ⟂ no-stray-goroutines", "", "", "a goroutine is started that nothing waits for ("+strings.Join(stray, "; ")+"): the worker returns (and the node closes its store) while it is still running, and a new round can start before the previous one finished", nil)
+	}
 }
